@@ -656,3 +656,25 @@ func (c *Ctx) onlyReachedThrough(fn, gate *ssa.Function, depth int) (bool, []str
 	}
 	return ok, who
 }
+
+// exceededRecovery locates the session's recovery from an oversized message: the function of package wire
+// (outside the COPY readers) that skips the rejected body with Reader.Slurp, and that Slurp call. The step may
+// live in a helper of the command loop or in consumeSingleCommand itself.
+func (c *Ctx) exceededRecovery() (*ssa.Function, ssa.CallInstruction) {
+	for _, fn := range c.P.ScopeFuncs() {
+		if !c.P.InPkg(fn, "wire") {
+			continue
+		}
+		if fn.Signature.Recv() != nil {
+			if n := core.NamedOf(fn.Signature.Recv().Type()); n != nil && (n.Obj().Name() == "CopyReader" || n.Obj().Name() == "BinaryCopyReader") {
+				continue
+			}
+		}
+		for _, ci := range core.Calls(fn) {
+			if isReaderMethod(ci, "Slurp") {
+				return fn, ci
+			}
+		}
+	}
+	return nil, nil
+}
